@@ -74,12 +74,74 @@ func singleStore(a *ssa.Alloc) ssa.Value {
 	return nil
 }
 
+// traceIP is trace in the vocabulary of root: a parameter of a same-package helper with exactly one call site reads as
+// the argument passed there, and the result of an unexported same-package helper with exactly one non-zero returned
+// value reads as that value (verify, ok := m.loadVerifier() → the asserted Load).
+func traceIP(root *ssa.Function, v ssa.Value) string {
+	old := traceRoot
+	traceRoot = root
+	defer func() { traceRoot = old }()
+	return traceD(v, 0)
+}
+
+var traceRoot *ssa.Function
+
+// helperResult: the single non-zero value an unexported same-package helper returns at result idx.
+func helperResult(call *ssa.Call, idx int) ssa.Value {
+	h := call.Call.StaticCallee()
+	if traceRoot == nil || h == nil || h.Pkg != traceRoot.Pkg || len(h.Blocks) == 0 || h.Parent() != nil || h.Object() == nil || h.Object().Exported() {
+		return nil
+	}
+	var val ssa.Value
+	for _, b := range h.Blocks {
+		r, ok := b.Instrs[len(b.Instrs)-1].(*ssa.Return)
+		if !ok || idx >= len(r.Results) {
+			continue
+		}
+		rv := returnedValue(r, idx)
+		if k, isK := rv.(*ssa.Const); isK && (k.Value == nil || isZeroConst(k)) {
+			continue
+		}
+		if val != nil && val != rv {
+			return nil
+		}
+		val = rv
+	}
+	return val
+}
+
 func traceD(v ssa.Value, d int) string {
 	if v == nil {
 		return "?"
 	}
 	if d > 30 {
 		return "…"
+	}
+	if traceRoot != nil {
+		switch x := v.(type) {
+		case *ssa.Parameter:
+			if f := x.Parent(); f != traceRoot && f.Pkg == traceRoot.Pkg && f.Parent() == nil {
+				if cs := callersInPkg(f); len(cs) == 1 {
+					for i, p := range f.Params {
+						if p == x && i < len(cs[0].Common().Args) {
+							return traceD(cs[0].Common().Args[i], d+1)
+						}
+					}
+				}
+			}
+		case *ssa.Extract:
+			if cl, ok := x.Tuple.(*ssa.Call); ok {
+				if rv := helperResult(cl, x.Index); rv != nil {
+					return traceD(rv, d+1)
+				}
+			}
+		case *ssa.Call:
+			if x.Call.Signature().Results().Len() == 1 {
+				if rv := helperResult(x, 0); rv != nil {
+					return traceD(rv, d+1)
+				}
+			}
+		}
 	}
 	switch x := v.(type) {
 	case *ssa.Parameter:
